@@ -1,0 +1,9 @@
+//go:build verif
+
+package roundrobin
+
+import "github.com/vulcand/oxy/v2/verifhook"
+
+func verifEmit(ev string, obj interface{}, args ...interface{}) {
+	verifhook.Emit("roundrobin", ev, obj, args...)
+}
